@@ -5,7 +5,8 @@
  * The kernel is the stub model of contracts/env_net.h section 4 (a real socket pair is not exercised).
  *
  *   send.complete  write() accepts everything or fails (any errno but EFBIG), in any sequence: TRUE => all sent
- *   send.short     additionally short counts                                                 (finding C19-short-write)
+ *   send.short     additionally short counts (fixed: bc0f5e7)
+ *   send.fd        as send.short, plus descriptor accounting: the object keeps its descriptor or has released it
  * The EFBIG branch (1 KiB chunks through a recursive call) is not covered by a unit: three bounded renderings
  * (symbolic payload <= 2100 bytes, recursion unwound) ran out of memory / time; its defect (every successfully
  * sent chunk string leaks) is shown natively only: findings/demos/C19_efbig_chunk_leak.c.
@@ -40,12 +41,23 @@ timeout: 200
 checks_off: --conversion-check
 funcs: spif_socket_send, spif_str_get_len
 */
+/*@unit
+name: send.fd
+define: NET_KERNEL, NET_WRITE_NO_EFBIG, NET_SEND_FD_ACCOUNTING
+src: socket.c
+prepass: --dfcc harness --enforce-contract-rec spif_socket_send --replace-call-with-contract spif_str_new_from_buff --replace-call-with-contract spif_str_del --apply-loop-contracts --no-malloc-may-fail
+backend: sat
+objbits: 9
+timeout: 200
+checks_off: --conversion-check
+funcs: spif_socket_send, spif_str_get_len
+*/
 #include "vprelude.h"
 #include "env_net.h"
 /* facts about the write stub of the unit that the back-off loop's invariant may use (annot/socket.c.net.ann):
  * it never reports EFBIG (NET_WRITE_NO_EFBIG); in send.complete a successful write accepted everything */
 # ifdef NET_WRITE_NO_SHORT
-#  define VG_SEND_ERRNO_INV ((num_written >= 0 || vg_errno != EFBIG) && (num_written < 0 || (size_t) num_written == len))
+#  define VG_SEND_ERRNO_INV ((num_written >= 0 || vg_errno != EFBIG) && (num_written < 0 || (size_t) num_written == len - sent))
 # else
 #  define VG_SEND_ERRNO_INV (num_written >= 0 || vg_errno != EFBIG)
 # endif
